@@ -325,7 +325,7 @@ func lsScenario(sc *engine.Scenario, r *engine.Rand, g *progGen) {
 // ---- the lock-step machine -------------------------------------------------------------
 
 type lsMismatch struct {
-	kind   string // cycles, regs, mem, buswrite, buswrite-missing, buswrite-cycle, if, ie, halted, flags-low, stray, stuck, undefined
+	kind   string // cycles, regs, mem, buswrite, buswrite-missing, buswrite-cycle, busread, busread-cycle, if, ie, halted, flags-low, stray, stuck, undefined
 	detail string
 }
 
@@ -354,6 +354,7 @@ type lockstep struct {
 	mode2Seen  bool             // the reference was in mode 2 at some boundary of the instruction in flight
 
 	realWrites []dmgref.Access // bus writes of the real CPU during the instruction in flight (hook H4)
+	realReads  []dmgref.Access // bus reads of the real CPU (instruction stream and data) during it
 	// preroll: the CPU spins in a JR loop in high RAM (in lock step like everything else) until this
 	// boundary, then the program proper starts; places a program at a chosen phase of the frame loop
 	prerollUntil uint64
@@ -439,6 +440,9 @@ func newLockstep(sc *engine.Scenario, res *engine.Result) *lockstep {
 	m.TapBus()
 	m.OnBusWrite = func(a uint16, v uint8) {
 		l.realWrites = append(l.realWrites, dmgref.Access{Cycle: l.k + 1, Write: true, Addr: a, Val: v})
+	}
+	m.OnBusRead = func(a uint16, v uint8) {
+		l.realReads = append(l.realReads, dmgref.Access{Cycle: l.k + 1, Addr: a, Val: v})
 	}
 	l.ref.Bus = l
 	// quiesce the hardware parties that could raise interrupt lines on their own
@@ -712,6 +716,51 @@ func (l *lockstep) finishInstr() bool {
 			}
 		}
 		l.realWrites = l.realWrites[:0]
+	}
+	// the data reads of the real CPU: what is left of its bus reads once the instruction-stream bytes
+	// are taken out, against the documented data reads (address and machine cycle)
+	{
+		left := append([]uint16(nil), c.Fetched...)
+		var got []dmgref.Access
+		for _, rd := range l.realReads {
+			isFetch := false
+			for i, fa := range left {
+				if fa == rd.Addr {
+					left = append(left[:i], left[i+1:]...)
+					isFetch = true
+					break
+				}
+			}
+			if !isFetch {
+				got = append(got, rd)
+			}
+		}
+		var want []dmgref.Access
+		for _, acc := range c.Acc {
+			if !acc.Write {
+				want = append(want, acc)
+			}
+		}
+		switch {
+		case len(got) > len(want):
+			g := got[len(want)]
+			mism = append(mism, lsMismatch{"busread", fmt.Sprintf("%s: undocumented data read of %04x in machine cycle %d (%d data reads documented, %d seen on the bus)", l.describe(), g.Addr, g.Cycle, len(want), len(got))})
+		case len(got) < len(want):
+			w := want[len(got)]
+			mism = append(mism, lsMismatch{"busread", fmt.Sprintf("%s: the documented read of %04x (machine cycle %d) was not performed", l.describe(), w.Addr, w.Cycle)})
+		default:
+			for i := range got {
+				if got[i].Addr != want[i].Addr {
+					mism = append(mism, lsMismatch{"busread", fmt.Sprintf("%s: data read number %d is from %04x, documented %04x", l.describe(), i+1, got[i].Addr, want[i].Addr)})
+					break
+				}
+				if got[i].Cycle != want[i].Cycle && c.Kind == "instr" {
+					mism = append(mism, lsMismatch{"busread-cycle", fmt.Sprintf("%s: the read of %04x happened in machine cycle %d of the instruction, documented %d", l.describe(), got[i].Addr, got[i].Cycle, want[i].Cycle)})
+					break
+				}
+			}
+		}
+		l.realReads = l.realReads[:0]
 	}
 	l.ifRefEnd = l.ifReg
 	if iff := m.IRQ.ReadIF() & 0x1f; iff != l.ifReg {
